@@ -192,6 +192,12 @@ def list_literal(it, n):
 
 def norm_index(it, c, k, node):
     n = c.terms[0]
+    if it.spec:
+        # specifications index with non-negative expressions or literal negative constants (xs[-1])
+        ks = z3.simplify(k.t)
+        if z3.is_int_value(ks) and ks.as_long() < 0:
+            return z3.simplify(n + ks)
+        return k.t
     idx = z3.simplify(z3.If(k.t < 0, k.t + n, k.t))
     if not it.spec:
         if it.branch(z3.Not(z3.And(idx >= 0, idx < n))):
@@ -703,6 +709,12 @@ def call_special(it, n):
         b2 = it.coerce(body, fs.ret)
         # a definition: leaf-wise identity (for list results: the whole array, not only the first len elements)
         return mk_bool(z3.And(*[x == y for x, y in zip(app.terms, b2.terms)]))
+    if name == "sort_source_index":
+        # for the most recent sorted(xs, ...) call on this path: the index in xs of the element at position k of the result
+        if getattr(it, "last_sorted", None) is None:
+            raise OutOfSubset("sort_source_index: no sorted() call on this path")
+        k = it.coerce(it.ev(n.args[0]), TInt)
+        return mk_int(it.last_sorted[2](k.t))
     if name == "result_of":
         # result_of("Callee", k): the value returned by the k-th call (in path order) of that contract in this function
         key = (ast.literal_eval(n.args[0]), ast.literal_eval(n.args[1]))
@@ -1004,7 +1016,8 @@ def sorted_(it, args, kwargs, node):
     st.assume(res.terms[0] == n)
     rng = lambda k: z3.And(k >= 0, k < n)
     st.assume(z3.ForAll([i], z3.Implies(rng(i), z3.And(rng(perm(i)), inv(perm(i)) == i, so.elem.eq(so.at(res, i), so.at(lst, perm(i)))))))
-    st.assume(z3.ForAll([i], z3.Implies(rng(i), z3.And(rng(inv(i)), perm(inv(i)) == i))))
+    st.assume(z3.ForAll([i], z3.Implies(rng(i), z3.And(rng(inv(i)), perm(inv(i)) == i, so.elem.eq(so.at(res, inv(i)), so.at(lst, i))))))
+    st.assume(z3.ForAll([i, j], z3.Implies(z3.And(rng(i), rng(j), i != j), perm(i) != perm(j))))
     key = kwargs.get("key")
     if key is not None:
         if isinstance(key, tuple) and key[0] == "cmp_to_key":
@@ -1035,6 +1048,7 @@ def sorted_(it, args, kwargs, node):
         else:
             raise OutOfSubset("sorted without key on non-numeric")
     res.meta = {"sort_perm": perm, "sort_inv": inv}
+    it.last_sorted = (res, lst, perm, inv)
     return res
 
 
